@@ -4,6 +4,7 @@ TRUSTED_BASE = [
     "Coq 8.16.1 kernel incl. vm_compute (no native_compute); full .vo build",
     "no axioms: Print Assumptions of every property theorem must be 'Closed under the global context'; no extraction, no Extract directive",
     "coqchk -o (thorough tier) re-checks the compiled property file and its closure; the axioms it lists belong to standard-library files that Psatz loads (Coq.Logic.FunctionalExtensionality.functional_extensionality_dep, Coq.Reals.ClassicalDedekindReals.sig_not_dec / sig_forall_dec) and are used by no theorem of the development",
+    "translator /verif/translator (go2coq: go/parser front end, targets and atoms of targets.go, the semantics it gives the Go subset) and the hand-written instantiation of atoms in coq/obligations/Tie*.v; a target that can no longer be translated is reported as TIE-LOST and its theorems are dropped for the run (the correspondence run remains the tie for it)",
     "correspondence harness (Go): history generator, ABCI driver on the real SettlusApp, fault-injecting keeper wrappers, snapshot projection, Coq term printer; bin/check (python)",
     "modelled, not verified: Cosmos-SDK baseapp (tx atomicity, panic recovery), signature verification, x/bank, x/staking, x/distribution, EVM / ERC-721 / SBT contracts, protobuf codecs, IAVL hashing, SHA-256, bech32, EIP-55",
 ]
@@ -123,7 +124,7 @@ PROPS = {
                      "map iteration sites are those of the generated inventory (go/parser heuristics: make(map), map literals, map-typed parameters / fields / function results); every site must be accounted for in Inventory/Table.v"]),
     'C08': dict(
         theorems=['C08_round_arithmetic', 'C08_tally_once_per_round', 'C08_round_info_current', 'C08_prevote_iff', 'C08_prevote_effect',
-                  'C08_vote_iff', 'C08_vote_effect', 'C08_no_tally_elsewhere', 'C08_nothing_left_behind', 'C08_replayed_vote_rejected'],
+                  'C08_vote_iff', 'C08_vote_effect', 'C08_no_tally_elsewhere', 'C08_nothing_left_behind', 'C08_replayed_vote_rejected', 'C08_restart_round'],
         runs=[func('arith', 'arith', 2000, 40000, 'arith_mismatches', 'arith_check', fields=[1, 2, 4]),
               chain('oracle', 'oracle', 56, 2000, 'check_C08'),
               chain('adv', 'adversarial', 24, 800, 'check_C08'),
